@@ -427,7 +427,12 @@ func (fb *FullBlockImage) Resize(w int, h int) {
 		y *= 2
 
 		top := img.At(x, y)
-		bot := img.At(x, y+1)
+		bot := top
+		if y+1 < img.Bounds().Max.Y {
+			bot = img.At(x, y+1)
+		}
+		// (the last row of an image with an odd height covers a single
+		// pixel)
 		r, g, b, a := averageColor(top, bot)
 		switch {
 		// TODO: What is the right value for alpha that we should set
